@@ -2139,7 +2139,8 @@ class GtkDocCommentBlockParser(object):
             if annotations is None:
                 parsed_annotations = GtkDocAnnotations(position=position)
             else:
-                parsed_annotations = annotations.copy()
+                parsed_annotations = GtkDocAnnotations(annotations,
+                                                       position=annotations.position or position)
         else:
             parsed_annotations = []
 
